@@ -44,6 +44,21 @@ impl InstallManifest {
         let header = InstallHeader::read(&mut cursor)?;
         header.validate()?;
 
+        // The entry count comes from the file and sizes both the per-tag bit masks
+        // and the entry vector: reject a count the remaining input cannot hold
+        // (every entry is at least a NUL terminator, a content key and a size).
+        let remaining = data.len().saturating_sub(cursor.position() as usize);
+        let min_entry_size = 1 + header.ckey_length as usize + 4;
+        if header.entry_count as usize > remaining / min_entry_size {
+            return Err(InstallError::Io(std::io::Error::new(
+                std::io::ErrorKind::UnexpectedEof,
+                format!(
+                    "entry count {} exceeds what the remaining {} bytes can hold",
+                    header.entry_count, remaining
+                ),
+            )));
+        }
+
         // Parse tags
         let mut tags = Vec::with_capacity(header.tag_count as usize);
         for _ in 0..header.tag_count {
